@@ -710,6 +710,100 @@ def r16_k(prog: Program, chk: Check) -> None:
     chk.ob("R16.k", "node_visitor::node-transformer-model::no-crash", not crashes, site, f"{len(crashes)} crashes" + (f"; first: {crashes[0]}" if crashes else ""), witness=crashes[:3])
 
 
+# ------------------------------------------------------------------- R16.l
+def r16_l(prog: Program, chk: Check) -> None:
+    import itertools
+
+    from ..minterp import AssertionFailed, Interp, ModelError, Obj, PyRaise, Sym, Unsupported
+    from .c14 import effective_eq_hash
+
+    chk.rule(
+        "R16.l",
+        "the too_many_positional_args fix gives every argument its own parameter name, as a finite model: Signature.maybe_show_too_many_pos_args_error is interpreted from its AST "
+        "on calls with 3-4 positional arguments, among them the same expression twice (`f(a, b, a)`, `f(0, 0, 1)`); the arguments are Composite objects with the equality and the hash "
+        "the Composite class really has (read from its __eq__ / __hash__ or NamedTuple defaults by the analysis of C14 R14.1), since the producer looks parameters up in a dict "
+        "keyed by them: the rewritten call names the i-th argument with the i-th parameter - no keyword twice (SyntaxError at compile time), none lost - and leaves the arguments "
+        "of positional-only parameters positional (TypeError at run time otherwise)",
+        floor=2,
+    )
+    sig = prog.cls("Signature")
+    fn = sig.methods.get("maybe_show_too_many_pos_args_error")
+    if fn is None:
+        raise AnchorError("Signature.maybe_show_too_many_pos_args_error not found")
+    eq, hs = effective_eq_hash(prog, "Composite")
+    eq_fields = tuple(eq.fields) if eq.fields else ("value", "varname", "node")
+    hash_fields = tuple(hs.fields) if hs.fields else ("value", "varname", "node")
+
+    class Composite(Obj):
+        def _k(self, fields):
+            return tuple(id(self._attrs[f]) if not isinstance(self._attrs[f], (str, int, type(None))) else self._attrs[f] for f in fields)
+
+        def __eq__(self, other):
+            return isinstance(other, Composite) and self._k(eq_fields) == other._k(eq_fields)
+
+        def __ne__(self, other):
+            return not self.__eq__(other)
+
+        def __hash__(self):
+            return hash(self._k(hash_fields))
+
+    wrong, crashes = [], []
+    n = 0
+    proposed = 0
+    vals = {"a": Obj("Value", label="a"), "b": Obj("Value", label="b"), "c": Obj("Value", label="c")}
+    for k in (3, 4):
+        for shape in itertools.product("abc", repeat=k):
+            if len(set(shape)) == k:
+                if shape != tuple("abc"[:k]) and k == 3:
+                    continue  # one all-distinct control per length is enough
+            n += 1
+            src = "f(" + ", ".join(shape) + ")"
+            call = ast.parse(src).body[0].value  # type: ignore[attr-defined]
+            composites = [Composite("Composite", value=vals[s], varname=s, node=arg) for s, arg in zip(shape, call.args)]
+            names = [f"p{i}" for i in range(k)]
+            # the first `npos` parameters are positional-only (`def f(p0, /, p1, ...)`): they cannot be passed by name
+            npos = {("a", "b", "c"): 1, ("a", "b", "a"): 2, ("a", "a", "b", "c"): 1}.get(shape, 0)
+            PO, POK = Sym("ParameterKind.POSITIONAL_ONLY"), Sym("ParameterKind.POSITIONAL_OR_KEYWORD")
+            parameters = {nm: Obj("SigParameter", name=nm, kind=PO if i < npos else POK) for i, nm in enumerate(names)}
+            bound_args = {nm: (i, comp) for i, (nm, comp) in enumerate(zip(names, composites))}
+            args = [(comp, None) for comp in composites]
+            shown: List[ast.AST] = []
+            visitor = Obj(
+                "NameCheckVisitor", options=Obj("Options", get_value_for=lambda o: 2),
+                show_error=lambda node, msg=None, error_code=None, replacement=None, **kw: shown.append(replacement),
+                replace_node=lambda node, new_node: new_node,
+            )
+            ctx = Obj("CheckCallContext", visitor=visitor)
+            it = Interp({}, {}, (), {"stringify_object": lambda a: "f"}, lambda v, c: (isinstance(v, int) if c == "int" else None), {}, {}, {"ast": ast, "MaximumPositionalArgs": Sym("MaximumPositionalArgs"), "ErrorCode": Obj("ErrorCode", too_many_positional_args=Sym("too_many_positional_args"))})
+            d = {"call": src}
+            try:
+                it.call_def(fn, [Obj("Signature", callable=None, parameters=parameters)], fn, {"args": args, "bound_args": bound_args, "ctx": ctx, "node": call})
+            except Unsupported as u:
+                raise AnchorError(f"maybe_show_too_many_pos_args_error cannot be modelled: {u}")
+            except (AssertionFailed, PyRaise, ModelError) as e:
+                crashes.append({**d, "error": str(e)})
+                continue
+            if not shown:
+                continue  # no fix proposed: nothing can be wrong with it
+            proposed += 1
+            new = shown[0]
+            if not isinstance(new, ast.Call):
+                wrong.append({**d, "replacement": repr(new)})
+                continue
+            got = [(None, a) for a in new.args] + [(kwd.arg, kwd.value) for kwd in new.keywords]
+            want = [(None if i < npos else nm, a) for i, (nm, a) in enumerate(zip(names, call.args))]
+            if [g[0] for g in got] != [w[0] for w in want] or any(g[1] is not w[1] for g, w in zip(got, want)):
+                wrong.append({**d, "rewritten to": "f(" + ", ".join((f"{a}=" if a else "") + ast.unparse(v) for a, v in got) + ")", "expected": "f(" + ", ".join((f"{a}=" if a else "") + ast.unparse(v) for a, v in want) + ")", "positional-only parameters": npos})
+    chk.model_evaluations += n
+    chk.analysed["too_many_positional_args_fix_model"] = {"calls": n, "fixes proposed": proposed}
+    if proposed < n // 2:
+        raise AnchorError(f"the model of maybe_show_too_many_pos_args_error proposed a fix for only {proposed} of {n} calls")
+    site = prog.site("signature", fn)
+    wrong.sort(key=lambda x: len(x["call"]))
+    chk.ob("R16.l", "signature::too-many-positional-args-fix::the i-th argument is named with the i-th parameter", not wrong, site, f"{n} calls, {len(wrong)} rewritten wrongly" + (f"; smallest: {wrong[0]}" if wrong else ""), witness=wrong[:5])
+    chk.ob("R16.l", "signature::too-many-positional-args-fix::no-crash", not crashes, site, f"{len(crashes)} crashes" + (f"; first: {crashes[0]}" if crashes else ""), witness=crashes[:3])
+
+
 def run(prog: Program, chk: Check) -> None:
     guard(chk, r16_c, prog, chk)
     guard(chk, r16_e, prog, chk)
@@ -718,3 +812,4 @@ def run(prog: Program, chk: Check) -> None:
     guard(chk, r16_i, prog, chk)
     guard(chk, r16_j, prog, chk)
     guard(chk, r16_k, prog, chk)
+    guard(chk, r16_l, prog, chk)
